@@ -19,8 +19,9 @@ from . import c16lib as G
 PROPERTY = "C16"
 DRIVER = "TraitsVerif/Driver/Legacy.lean"
 PROPS_MODULES = ["TraitsVerif.Props.C16"]
-TRANSLATORS = []
-RULE = ("names: 1-3 links over child (Instance) / kids (List) / byname (Dict) with '.' or ':' after each link, final "
+TRANSLATORS = ["legacysrc"]
+RULE = ("names: 1-3 links over child (Instance) / kids (List) / byname (Dict) / group (Set; not with value-equality "
+        "nodes, which are unhashable) with '.' or ':' after each link, final "
         "value|aux, handler signatures with 0, 3, 4 arguments (1 and 2 arguments with ':' links only, implementation + "
         "oracle only); histories of 1-12 operations built with a shadow tree so "
         "that ~60% of the mutations hit an object currently reachable along the name at the link the name follows "
@@ -28,14 +29,17 @@ RULE = ("names: 1-3 links over child (Instance) / kids (List) / byname (Dict) wi
         "sides), removal and re-registration; after EVERY operation every allocated object (also detached ones) is "
         "probed on both scalars. List ops: reassign, append, insert, del, item and slice assignment, clear; dict ops: "
         "reassign, __setitem__, update and |= mixing existing and new keys (ONE event with changed+added), setdefault, "
-        "del, pop, popitem, clear; carry-over changes in which objects are on BOTH sides of one container change "
+        "del, pop, popitem, clear; set ops: reassign, add, |=, remove, ^= {member, fresh} (ONE event with removed+added), clear; "
+        "detached containers: after a List/Dict/Set link has been reassigned the generator keeps the OLD container and "
+        "(30% of the ops on such a link) puts a fresh object into it (xa) or takes one out (xr) - the graph is unchanged, "
+        "nothing may be reported and the stray object must stay silent; carry-over changes in which objects are on BOTH sides of one container change "
         "(the graph stays a tree): reverse(), sort(), kids[:] = rotation / tail + fresh, o.kids = o.kids[d:] + fresh, "
         "o.kids = list(reversed(o.kids)), o.byname = dict(reversed(items[d:])). 7% of the histories are "
         "handler(new) / handler(name, new) registrations of 'child.value' (the documented mapped case; oracle only) "
         "whose link is reassigned to fresh objects with an equal / a different final value. 30% of the histories ('E') use a node class with value-based __eq__ (unhashable) "
         "and replace items / dict values by equal CLONES, so that any use of == instead of identity shows. "
         "Exhaustive: all histories of length <= 2 (quick) / <= 3 (thorough) over an 8-35 letter "
-        "alphabet (every op kind on the two upper objects, probes, rm, rg) on a 3-object tree for 17 fixed names "
+        "alphabet (every op kind on the two upper objects, probes, rm, rg) on a 3-object tree for 19 fixed names (2 with Set links) "
         "(2 with value-equality nodes, 3 with deferred registrations, 2 with falsy nodes, 2 with `_items` names), registered before and after the tree is built. "
         "20% of the histories use node classes that are alive but FALSY ('F': __len__ = number of kids, falsy until the "
         "node gets kids; 'Z': __bool__ always False) and 20% use link trait NAMES containing `_items` ('N': "
@@ -45,12 +49,23 @@ RULE = ("names: 1-3 links over child (Instance) / kids (List) / byname (Dict) wi
         "re-registrations; 'K': the keyword with a plain function), mostly with a List/Dict first link and with more "
         "rm/rg toggles, so that registrations, removals and re-registrations happen with items present. "
         "A case is non-trivial when some handler was called; distinct = distinct canonical output line")
-TRUSTED = ["the reachability specification `reach`/`specCalls` (Model/Legacy.lean) is what observe is taken to promise; "
+TRUSTED = ["translation tie (harness/translate/legacysrc.py -> Generated/LegacyProg.lean, language Model/LisL.lean): the "
+           "leaves of the translated methods are effects on the runtime whose meaning is fixed by the interpreter: "
+           "`object._on_trait_change(h, name, remove=remove, ...)` appends / removes the first equal notifier, "
+           "`getattr(object, name)` of an Instance / List / Set / Dict link yields `targets` (None yields nothing), "
+           "`trait.handler.default_value_type` of the four link kinds is constant / trait_list_object / trait_dict_object "
+           "/ trait_set_object (LisL.dvtOf); the wildcard / metadata / optional branches of register(), handle_dst, "
+           "handle_error and handle_list_items_special are pinned as normalised text, not interpreted",
+           "the reachability specification `reach`/`specCalls` (Model/Legacy.lean) is what observe is taken to promise; "
            "it is re-computed independently in Python on the real object graph (c16lib.levels) by the oracle",
            "calls of a 0-argument legacy handler carry no object/name; they are attributed to the object and trait "
            "the operation changed",
            "scalar contents are not modelled: a probe is `o.value += 1` (always a real change)"]
-ASSUMPTIONS = ["tree-shaped graphs: an object added by a container change is fresh or was in that same container "
+ASSUMPTIONS = ["a detached container (replaced on its owner, still held by the caller) is not part of the graph: objects "
+               "put into it are allocated and referenced from nowhere (model: Op.stray)",
+               "the members of a Set link are kept in insertion order in the model; the implementation side mirrors that "
+               "order to pick the i-th member; nothing observable depends on it",
+               "tree-shaped graphs: an object added by a container change is fresh or was in that same container "
                "before the change (reorderings, carry-over reassignments); objects removed from the tree stay in the "
                "probe pool but are never re-inserted",
                "common fragment only: no wildcards/metadata/?/* names, no ListenerGroup, no 1-/2-argument (DST) "
@@ -95,6 +110,16 @@ def corpus():
         "Z 0 k. b: v|sk 0 2;rg;ds 1 0;ap 0;pv 3;pv 4;rm;pv 3",
         "N 4 b: v|rg;ds 0 0;ds 0 1;ds 0 0;du 0 0 2 1;di 0 2 4;pv 5;rm;pv 5",
         "N 4 c. k. b. v|rg;sc 0 1;ap 1;ds 2 0;ds 2 0;rv 1;sk 1 1;rm",
+        # Set links: _register_set = _register_list, handle_list(_items) on TraitSetEvent (seeded change C16-m11)
+        "4 s. v|ss 0 2;rg;ga 0;gr 0 0;gx 0 0;ss 0 1;xa 0 s;xr 0 s;gc 0;rm",
+        "0 c: s: v|sc 0 1;rg;ss 1 2;gr 1 1;gu 1 2;pv 3;rm",
+        "K 4 s: v|ss 0 1;rg;ga 0;rm;rg",
+        # detached containers: the caller keeps the list / dict / set a link held before it was reassigned
+        # and mutates it (seeded change C16-m10); with a carry-over reassignment the detached list still
+        # holds objects that are reachable through the new one
+        "4 k. v|rg;sk 0 2;xa 0 k;xr 0 k;sk 0 1;xa 0 k",
+        "4 b: v|rg;sb 0 1 2;sb 0 3;xa 0 b;xr 0 b;pv 4",
+        "4 k: v|sk 0 2;rg;kc 0 1 1;xr 0 k;pv 2",
     ]
 
 
